@@ -14,10 +14,16 @@ Definition quiet_pc (p:phase) : bool := match p with Sleep _ | WaitDeps _ | Done
 (* Aux: facts about the control state that the liveness argument needs *)
 Record Aux (s:state) : Prop := mkAux {
   aux_sleep : forall i aw, pc (s i) = Sleep aw -> newer (s i) = false ->
-                aw = match tmin (nexts (s i)) with Some m => m | None => until_t st i end;
+                aw = match tmin (nexts (s i)) with Some m => sleep_until st i m | None => until_t st i end;
   aux_cur   : forall i, quiet_pc (pc (s i)) = true -> cur (s i) = None;
   aux_bound : forall i c, (i < nsims st)%nat -> In c (nexts (s i)) -> thd c < until st
 }.
+
+Lemma sleep_until_id i m : thd m < until st -> sleep_until st i m = m.
+Proof.
+  intros H. unfold sleep_until, until_t, world_time. destruct m as [|x m]; simpl in *; [reflexivity|].
+  destruct (until st <? x) eqn:E1; [apply Z.ltb_lt in E1; lia|]. destruct (x <? until st) eqn:E2; [reflexivity|apply Z.ltb_ge in E2; lia].
+Qed.
 
 (* tmin facts *)
 Lemma tmin_cons_ge l m t : tmin l = Some m -> tle m t = true -> tmin (t :: l) = Some m.
